@@ -364,7 +364,7 @@ class MiniEval:
         return set(self._comp(n, lambda: self.ev(n.elt)))
 
     def ev_GeneratorExp(self, n):
-        return self._comp(n, lambda: self.ev(n.elt))
+        return iter(self._comp(n, lambda: self.ev(n.elt)))
 
     def ev_DictComp(self, n):
         return dict(self._comp(n, lambda: (self.ev(n.key), self.ev(n.value))))
@@ -490,11 +490,25 @@ class BlockInterp:
             for t in st.targets:
                 self.me._bind(t, v)
             return "next"
-        if isinstance(st, ast.AugAssign) and isinstance(st.target, ast.Name):
-            cur = self.me.ev(st.target)
+        if isinstance(st, ast.AugAssign) and isinstance(st.target, (ast.Name, ast.Subscript, ast.Attribute)):
+            load = ast.copy_location(type(st.target)(**{f: getattr(st.target, f) for f in st.target._fields if f != "ctx"}, ctx=ast.Load()), st.target)
+            cur = self.me.ev(load)
             v = self.me.ev(st.value)
-            fake = ast.BinOp(left=ast.Constant(cur), op=st.op, right=ast.Constant(v))
-            self.me.env[st.target.id] = self.me.ev_BinOp(fake)
+            if isinstance(cur, list) and isinstance(st.op, ast.Add):
+                cur.extend(v)  # in-place list extension keeps aliases, like Python
+                new = cur
+            elif isinstance(cur, set) and isinstance(st.op, (ast.BitOr, ast.BitAnd, ast.Sub)):
+                if isinstance(st.op, ast.BitOr):
+                    cur |= v
+                elif isinstance(st.op, ast.BitAnd):
+                    cur &= v
+                else:
+                    cur -= v
+                new = cur
+            else:
+                fake = ast.BinOp(left=ast.Constant(cur), op=st.op, right=ast.Constant(v))
+                new = self.me.ev_BinOp(fake)
+            self.me._bind(st.target, new)
             return "next"
         if isinstance(st, ast.Pass):
             return "next"
